@@ -182,7 +182,9 @@ ASSUMPTIONS = [
     "tolerances: mean rtol 1e-9 (finite variation) / 1e-8 (infinite variation) of the largest term, atol 1e-13; sampler laws add "
     "4 ulp(1) x intensity x sum|x_k| (break points are located to 1 ulp of the uniform); histories rtol 1e-12",
     "sampler law: no piece of the map u -> state lies strictly between two agreeing probes of the initial dyadic sweep "
-    "(n0 >= 16 x number of states), as in C02; the inversion sampler's hidden numpy.random.choice is scripted (first element)",
+    "(n0 >= 16 x number of states), as in C02 - alias tables are also probed on both sides of every column edge and inside the "
+    "alias piece of every column (mc.c04_util.alias_interior: the table is read to place probes only); the inversion sampler's "
+    "hidden numpy.random.choice is scripted (first element)",
     "infinite-variation copula chains: pathos pool of MCLevyCopulaSimulation replaced by a stand-in with scripted non-zero "
     "answers keyed by the first two arguments (i, j) of the submitted call (drift cases) or an in-process synchronous pool "
     "running the real vol_adjustment_ij (diffusion cases); the reference central-box covariance "
@@ -831,7 +833,7 @@ def _sampler_rates(proc, grid, method, nstates):
     try:
         f, hi = C2.single_entry(proc, method)
         n0 = 1 << max(10, int(math.ceil(math.log2(16 * max(nstates, 1)))))
-        extra = C2.alias_edges(len(grid.axes[0]), hi) if method == "ALIAS" else ()
+        extra = C2.alias_edges(len(grid.axes[0]), hi) + C2.alias_interior(proc.sampling, hi) if method == "ALIAS" else ()
         pieces, evals, hi = C2.recover_partition(f, n0, 0.0, hi, extra=extra)
     finally:
         npr.choice = orig
